@@ -13,7 +13,7 @@
    every run and passed with every correspondence case).  The main theorems are
    stated for the tree as it is; the versions for arbitrary [fx] are kept. *)
 From Coq Require Import Lia ZArith NArith List Bool.
-From VF.C05 Require Import Model ProofsPenalty ProofsShares ProofsEvidence ProofsHonest Bridge.
+From VF.C05 Require Import Model ProofsPenalty ProofsShares ProofsEvidence ProofsHonest ProofsVoter Bridge.
 Local Open Scope Z_scope.
 
 (* ---- 1. honest validators ---------------------------------------------------------- *)
@@ -77,6 +77,78 @@ Proof.
            single_hash_evidence_inert fx_now vf cfg ch hnum parent r ri idx vt signs res eq_refl).
 Qed.
 Print Assumptions C05_single_hash_evidence_inert.
+
+(* ---- 1b. the same with the honest vote set INSTANTIATED by the Voter model of C03 ------------
+   [hist pk = Some (E, ops)]: the BLS key pk is used by one voter process whose
+   whole life is the history ops (context changes, vote messages, cache and
+   server moves, restarts - any interleaving) in environment E.
+   [voter_emits hist pk k h r i]: that history posted a vote of kind k for
+   block h at (r, i) (an ESend event of [all_events]).  The one-vote-per-kind
+   bound is no longer a hypothesis: it is C03_voter_one_vote (simulation onto
+   C02's vote database + C02_one_vote).  What remains assumed is only the
+   ideal-signature hypothesis. *)
+
+(* the bound, read on block hashes *)
+Theorem C05_voter_one_vote_per_kind :
+  forall (hs : history) k h h' r i,
+    k <> next_index -> history_emits hs k h r i -> history_emits hs k h' r i -> h = h'.
+Proof. exact history_one_vote_per_kind. Qed.
+Print Assumptions C05_voter_one_vote_per_kind.
+
+(* MAIN (tree as it is): if the signatures that verify under a validator's keys
+   are exactly signatures over votes its voter histories posted, doPenalize
+   runs on that validator only if the evidence list holds an evidence of the
+   OPEN class: two different hashes the voter model really posted at that
+   round/index under different kinds, or as its two next-index votes. *)
+Theorem C05_voter_safe_outside_now :
+  forall (hist : N -> option history) (vf : vfun),
+    (forall pk h r i s, voter_key hist pk -> vf pk h r i s = true -> exists k, voter_emits hist pk k h r i) ->
+    forall cfg ch parent hnum evs st res' a,
+      process_evidences fx_now vf cfg ch parent hnum evs st = Some res' ->
+      (forall pk, registered ch a pk -> voter_key hist pk) ->
+      In a (r_processed res') ->
+      exists ev pk, In ev evs /\ registered ch a pk /\ cross_kind_class (voter_emits hist) ev pk.
+Proof.
+  exact (fun hist vf Hi cfg ch parent hnum evs st res' a =>
+           voter_safe_outside_repaired hist vf Hi fx_now cfg ch parent hnum evs st res' a eq_refl).
+Qed.
+Print Assumptions C05_voter_safe_outside_now.
+
+(* general version (any repair setting): the finding classes *)
+Theorem C05_voter_safe_outside :
+  forall (hist : N -> option history) (vf : vfun),
+    (forall pk h r i s, voter_key hist pk -> vf pk h r i s = true -> exists k, voter_emits hist pk k h r i) ->
+    forall fx cfg ch parent hnum evs st res' a,
+      process_evidences fx vf cfg ch parent hnum evs st = Some res' ->
+      (forall pk, registered ch a pk -> voter_key hist pk) ->
+      In a (r_processed res') ->
+      exists ev pk, In ev evs /\ registered ch a pk /\ finding_class fx (voter_emits hist) ev pk.
+Proof. exact voter_safe_outside. Qed.
+Print Assumptions C05_voter_safe_outside.
+
+(* ... and outside that class the voter's validator keeps its ledger record *)
+Theorem C05_voter_record_kept :
+  forall (hist : N -> option history) (vf : vfun),
+    (forall pk h r i s, voter_key hist pk -> vf pk h r i s = true -> exists k, voter_emits hist pk k h r i) ->
+    forall fx cfg ch parent hnum evs st res' a,
+      process_evidences fx vf cfg ch parent hnum evs st = Some res' ->
+      (forall pk, registered ch a pk -> voter_key hist pk) ->
+      (forall ev pk, In ev evs -> registered ch a pk -> ~ finding_class fx (voter_emits hist) ev pk) ->
+      find_val (s_vals (r_state res')) a = find_val (s_vals st) a /\ ~ In a (r_processed res').
+Proof. exact voter_record_kept. Qed.
+Print Assumptions C05_voter_record_kept.
+
+(* non-vacuity, and the open class exhibited INSIDE the voter model: the C03
+   voter at (7,1) prevotes block 1 and - after a prevote quorum for block 2 -
+   precommits block 2; with ideal signatures for exactly these two votes the
+   evidence [(1, sig), (2, sig')] is accepted by the tree as it is *)
+Example C05_nonvacuous_voter :
+  C3E.all_events x_env C3.init_voter x_ops = [C3.ESend C2.Prevote 7 1 1 1 1; C3.ESend C2.Precommit 7 1 2 1 1]%N /\
+  (forall pk h r i s, voter_key x_hist pk -> x_vf pk h r i s = true -> exists k, voter_emits x_hist pk k h r i) /\
+  (exists res', process_evidences fx_now x_vf w_cfg x_chain 7 8 [x_evidence] w_state = Some res'
+                /\ r_processed res' = [9%N]).
+Proof. exact (conj x_history_events (conj x_ideal x_accepted)). Qed.
+Print Assumptions C05_nonvacuous_voter.
 
 (* ... and a validator on which doPenalize did not run keeps its ledger record *)
 Theorem C05_honest_record_kept :
